@@ -20,6 +20,20 @@ func main() {
 		cmdVC(os.Args[2:])
 	case "check":
 		cmdCheck(os.Args[2:])
+	case "ssa":
+		ff, _ := loadFindings("/verif/known_findings.json")
+		w, err := loadWorldF("/repo", ff)
+		if err != nil {
+			fmt.Println(err)
+			os.Exit(2)
+		}
+		for id, c := range w.Contracts {
+			if strings.Contains(id, os.Args[2]) {
+				if fn := w.lookupFunc(c.Pkg, c.Func); fn != nil {
+					fn.WriteTo(os.Stdout)
+				}
+			}
+		}
 	case "selfcheck":
 		cmdSelfcheck(os.Args[2:])
 	case "replay":
